@@ -214,6 +214,9 @@ def rewrite_misc(text, rules):
         rules.hit('R4')
         text = new
     # R6: unreachable!() -> vstd::pervasive::unreached()
+    # (a trailing `unreachable!();` is the function's tail expression of type `!`; `unreached()` is generic in its
+    # return type, so the `;` is dropped when the statement is the last one of its block)
+    text = re.sub(r'\bunreachable!\s*\(\s*\)\s*;(\s*\})', r'unreachable!()\1', text)
     new, k = re.subn(r'\bunreachable!\s*\(\s*\)', 'vstd::pervasive::unreached()', text)
     for _ in range(k):
         rules.hit('R6', 'unreachable!() -> unreached()')
@@ -627,6 +630,12 @@ def build_unit(unit_path, vacuity=False):
             a, f = d[6:].split('=')
             aliases[a.strip()] = f.strip()
             i += 1
+            continue
+        if d.startswith('include-unit '):
+            # splice another template (directives are processed as if written here)
+            sub = open(os.path.join(HERE, d[len('include-unit '):].strip())).read().split('\n')
+            lines[i:i + 1] = sub
+            n = len(lines)
             continue
         if d.startswith('include '):
             p = os.path.join(HERE, d[8:].strip())
